@@ -1,4 +1,5 @@
 import PPLV.WR.Trans
+import PPLV.WR.TransOct
 import PPLV.Lin.Parse
 /-!
 native driver `pplv_wrt` — correspondence of the transformer models of `PPLV/WR/Trans.lean`
@@ -23,6 +24,8 @@ stdin: the journal of `harness/c03_trans.cc`, one event per line
     * `aff <var> <den> <b> <coeffs>` — `affine_image(Variable(var), coeffs·x + b, den)`
     * `gaff <var> <le|ge|eq> <den> <b> <coeffs>` — `generalized_affine_image(var, relsym, expr, den)`
     * `baff <var> <den> <bl> <lcoeffs> <bu> <ucoeffs>` — `bounded_affine_image(var, lb, ub, den)`
+    * `apre <var> <den> <b> <coeffs>` — `affine_preimage(Variable(var), coeffs·x + b, den)`
+    * `gapre <var> <le|ge|eq> <den> <b> <coeffs>` — `generalized_affine_preimage(var, relsym, expr, den)`
     * `unc <var>` — `unconstrain(Variable(var))`
     * `oaff <var> <den> <b> <coeffs>` — `Octagonal_Shape<T>::affine_image` (matrices: the `2n` rows of the
       pseudo-triangular matrix)
@@ -126,6 +129,8 @@ inductive Op where
   | refine (add : Bool) (sd : Nat) (kind : CKind) (inhomo : Int) (cf : List Int)
   | aff (var : Nat) (den b : Int) (cf : List Int)
   | gaff (var : Nat) (rel : RelSym) (den b : Int) (cf : List Int)
+  | apre (var : Nat) (den b : Int) (cf : List Int)
+  | gapre (var : Nat) (rel : RelSym) (den b : Int) (cf : List Int)
   | baff (var : Nat) (den bl : Int) (lcf : List Int) (bu : Int) (ucf : List Int)
   | unc (var : Nat)
   | oaff (var : Nat) (den b : Int) (cf : List Int)
@@ -137,6 +142,9 @@ def parseOp (op : String) (args : List String) : Option Op :=
   | "aff", [v, d, b, cf] => do some (.aff (← v.toNat?) (← d.toInt?) (← b.toInt?) (← parseInts cf))
   | "gaff", [v, r, d, b, cf] => do
     some (.gaff (← v.toNat?) (← parseRelSym r) (← d.toInt?) (← b.toInt?) (← parseInts cf))
+  | "apre", [v, d, b, cf] => do some (.apre (← v.toNat?) (← d.toInt?) (← b.toInt?) (← parseInts cf))
+  | "gapre", [v, r, d, b, cf] => do
+    some (.gapre (← v.toNat?) (← parseRelSym r) (← d.toInt?) (← b.toInt?) (← parseInts cf))
   | "baff", [v, d, bl, lcf, bu, ucf] => do
     some (.baff (← v.toNat?) (← d.toInt?) (← bl.toInt?) (← parseInts lcf) (← bu.toInt?) (← parseInts ucf))
   | "unc", [v] => do some (.unc (← v.toNat?))
@@ -145,16 +153,25 @@ def parseOp (op : String) (args : List String) : Option Op :=
 
 def nArgs : String → Option Nat
   | "refine" => some 4 | "addc" => some 4 | "aff" => some 4 | "gaff" => some 5 | "baff" => some 6
-  | "unc" => some 1 | "oaff" => some 4 | _ => none
+  | "unc" => some 1 | "oaff" => some 4 | "apre" => some 4 | "gapre" => some 5 | _ => none
 
-/-- the integers that the transformer converts to `T` (coefficients of the expressions, denominator) -/
+/-- the coefficients that the transformer converts to `T` with `assign_r(coeff_i, ±sc_i, ROUND_UP)`: a case
+with one of them beyond the range of a bounded `T` is outside the model (`skip`).  The preimages build
+the inverse expression from the coefficients and the denominator: all of them count there. -/
 def Op.convInts : Op → List Int
   | .refine .. => []
-  | .aff _ d _ cf => d :: cf
-  | .gaff _ _ d _ cf => d :: cf
-  | .baff _ d _ lcf _ ucf => d :: (lcf ++ ucf)
+  | .aff _ _ _ cf => cf
+  | .gaff _ _ _ _ cf => cf
+  | .apre _ d _ cf => d :: cf
+  | .gapre _ _ d _ cf => d :: cf
+  | .baff _ _ _ lcf _ ucf => lcf ++ ucf
   | .unc _ => []
-  | .oaff _ d _ cf => d :: cf
+  | .oaff _ _ _ cf => cf
+
+/-- the denominator (`div_round_up_by_positive` converts it to `T` in both directions: modelled by `Rnd.dn` /
+`Rnd.up`, so the case is replayed, but it is outside the hypotheses `CoeffExact` of the theorems) -/
+def Op.den : Op → Int
+  | .aff _ d .. => d | .gaff _ _ d .. => d | .baff _ d .. => d | .oaff _ d .. => d | _ => 1
 
 /-- the model's answer -/
 def runOp (R : Rnd) (n : Nat) (closed : Bool) (before : List (List ExtRat)) : Op → Res
@@ -165,7 +182,12 @@ def runOp (R : Rnd) (n : Nat) (closed : Bool) (before : List (List ExtRat)) : Op
   | .baff v d bl lcf bu ucf =>
     ofOpt n (boundedAffineImage R closed v (fnOf lcf) bl (fnOf ucf) bu d (DBM.ofLists n before))
   | .unc v => ofOpt n (unconstrain R closed v (DBM.ofLists n before))
-  | .oaff .. => .throws
+  | .apre v d b cf => ofOpt n (affinePreimage R closed v (fnOf cf) b d (DBM.ofLists n before))
+  | .gapre v r d b cf => ofOpt n (genAffinePreimage R closed v r (fnOf cf) b d (DBM.ofLists n before))
+  | .oaff v d b cf =>
+    match octAffineImage R closed v (fnOf cf) b d (OctM.ofLists n before) with
+    | some m => .mat (octOut n m)
+    | none => .empty
 
 /-! ### which branch of the code the case exercises (coverage only) -/
 
@@ -202,6 +224,22 @@ def gformTag (R : Rnd) (n v : Nat) (isLe : Bool) (e : Nat → Int) (den : Int) (
       let stored := if st.cnt = 1 then (if st.idx ≠ v ∧ e (st.idx - 1) = den then "y" else "n") else ""
       s!"g{t}.c{cnt2 st.cnt}{stored}"
 
+/-- the form of the expression alone -/
+def plainForm (n v : Nat) (e : Nat → Int) (den : Int) : String :=
+  let w := lastNonzero e n
+  let t := exprT e w
+  if t = 0 then "t0"
+  else
+    let a := e (w - 1)
+    if t = 1 ∧ (a = den ∨ a = - den) then
+      s!"t1.{if w = v then "wv" else "wo"}.{if a = den then "a+" else "a-"}"
+    else s!"g{t}"
+
+/-- `affine_preimage`: the form, and whether the general case is invertible -/
+def preTag (n var : Nat) (e : Nat → Int) (den : Int) : String :=
+  let f := plainForm n (var+1) e den
+  if f.startsWith "g" then s!"{f}.{if e var ≠ 0 then "inv" else "forget"}" else f
+
 def dsign (d : Int) : String := if d > 0 then "d+" else "d-"
 
 def branchTag (R : Rnd) (n : Nat) (closed : Bool) (before : List (List ExtRat)) : Op → String
@@ -228,7 +266,11 @@ def branchTag (R : Rnd) (n : Nat) (closed : Bool) (before : List (List ExtRat)) 
     | none => "E"
     | some m => s!"ub.{formTag R n (v+1) (fnOf ucf) d m false}:lb.{gformTag R n (v+1) false (fnOf lcf) d m}/{dsign d}"
   | .unc _ => "unc"
-  | .oaff .. => "oaff"
+  | .apre v d _ cf => s!"{preTag n v (fnOf cf) d}/{dsign d}"
+  | .gapre v r d _ cf =>
+    let rs := match r with | .le => "le" | .ge => "ge" | .eq => "eq"
+    s!"{rs}.{if r = .eq then preTag n v (fnOf cf) d else if (fnOf cf) v ≠ 0 then "inv." ++ plainForm n (v+1) (fnOf cf) d else "ref." ++ plainForm n (v+1) (fnOf cf) d}/{dsign d}"
+  | .oaff v d _ cf => s!"{plainForm n (v+1) (fnOf cf) d}/{dsign d}"
 
 /-! ### the judge -/
 open PPLV.Lin in
@@ -264,6 +306,9 @@ def exactOf (p : RefPoly) : Op → RefPoly
   | .aff v d b cf => p.affineImage v ⟨cf, b⟩ d
   | .gaff v r d b cf =>
     p.genAffineImage v (match r with | .le => Rel.le | .ge => Rel.ge | .eq => Rel.eq) ⟨cf, b⟩ d
+  | .apre v d b cf => p.affinePreimage v ⟨cf, b⟩ d
+  | .gapre v r d b cf =>
+    p.genAffinePreimage v (match r with | .le => Rel.le | .ge => Rel.ge | .eq => Rel.eq) ⟨cf, b⟩ d
   | .baff v d bl lcf bu ucf => p.boundedAffineImage v ⟨lcf, bl⟩ ⟨ucf, bu⟩ d
   | .unc v => p.unconstrain [v]
   | .oaff v d b cf => p.affineImage v ⟨cf, b⟩ d
@@ -311,6 +356,9 @@ def processLine (printOnly noJudge : Bool) (line : String) : List String :=
             | .exact R hi => (R, hi, false)
             | .dbl => (Rnd.exact, none, true)
           let tag := branchTag R n closed b o
+          let tag := match hi with
+            | some h => if o.den > h ∨ o.den < -h then tag ++ "/bigden" else tag
+            | none => tag
           if printOnly then some [s!"{id} {(runOp R n closed b o).show}"] else
           let outside := match hi with
             | some h => o.convInts.any fun c => decide (c > h ∨ c < -h)
